@@ -41,8 +41,30 @@ def services():
     return []
 
 
+ERR_CLASSES = [("String", lambda: ir.prim("STRING")), ("Int", lambda: ir.prim("INTEGER")), ("Long", lambda: ir.prim("SAFELONG")),
+               ("Double", lambda: ir.prim("DOUBLE")), ("Bool", lambda: ir.prim("BOOLEAN")), ("Uuid", lambda: ir.prim("UUID")),
+               ("Rid", lambda: ir.prim("RID")), ("Enum", lambda: ir.ref("Color", PKG)), ("Opt", lambda: ir.optional(ir.prim("STRING"))),
+               ("List", lambda: ir.list_(ir.prim("STRING"))), ("Map", lambda: ir.map_(ir.prim("STRING"), ir.prim("INTEGER"))),
+               ("Obj", lambda: ir.ref("Inner", PKG)), ("Bin", lambda: ir.prim("BINARY")), ("Time", lambda: ir.prim("DATETIME"))]
+
+
 def errors():
-    return []
+    return [
+        ir.error("ErrAll", "Verif", "INVALID_ARGUMENT", [ir.field("s" + n, t()) for n, t in ERR_CLASSES],
+                 [ir.field("u" + n, t()) for n, t in ERR_CLASSES], package=PKG),
+        ir.error("ErrEmpty", "Verif", "NOT_FOUND", [], [], package=PKG),
+        ir.error("ErrOptOnly", "Verif", "CONFLICT", [ir.field("so", ir.optional(ir.prim("STRING")))],
+                 [ir.field("us", ir.prim("STRING"))], package=PKG),
+        ir.error("ErrSorted", "Other", "CUSTOM_CLIENT", [ir.field("zeta", ir.prim("STRING")), ir.field("alpha", ir.prim("STRING")),
+                                                          ir.field("mid", ir.prim("INTEGER"))],
+                 [ir.field("beta", ir.prim("STRING"))], package=PKG),
+        ir.error("ErrKeyword", "Verif", "TIMEOUT", [ir.field("type", ir.prim("STRING")), ir.field("fooBar", ir.prim("INTEGER"))],
+                 [ir.field("self", ir.prim("STRING")), ir.field("snake_case", ir.list_(ir.prim("INTEGER")))], package=PKG),
+    ]
+
+
+def error_types():
+    return ["ErrAll", "ErrEmpty", "ErrOptOnly", "ErrSorted", "ErrKeyword"]
 
 
 def wire_types():
